@@ -1853,6 +1853,12 @@ func (comp *Compiler) makeDecimal64(
 			comp.error(node, errors.New("missing fraction-digits"))
 		}
 		base = schema.NewDecimal64(name, fd, nil, "", "", "", false)
+	} else if node.ChildByType(parse.NodeFractionDigits) != nil {
+		// RFC 6020 9.3.4: fraction-digits belongs to the decimal64 type
+		// itself; a type derived from it can only narrow the range, and
+		// silently keeping the base's fraction digits would hide that.
+		comp.error(node, errors.New(
+			"fraction-digits cannot be given for a type derived from decimal64"))
 	}
 
 	fd := base.Fd()
